@@ -95,6 +95,11 @@ def order_insensitive_body(loop: ast.For) -> (bool, str):
                 if la in ("Print", "write", "AddInstruction", "AddFunction", "AddExport", "AddCode", "AddLocal", "insert", "extend", "RegisterFunction", "RegisterType", "RegisterVariable",
                           "CreateFunction", "CreateGlobalVariable", "AddModule", "Load", "RegisterValue", "CreateConstant", "v_Visit", "v_Generic"):
                     return False, f"`{unparse(n)[:50]}` has an order-dependent effect"
+                # any other method call is an effect unless it reads only (the list above names the known ones; a private
+                # helper such as `self.__Print(..)` must not slip through because it is not listed)
+                if not (la.startswith(("Get", "Is", "Has", "With")) or la in ("keys", "values", "items", "get", "format", "join", "startswith", "endswith", "split", "strip", "lower", "upper",
+                                                                                "count", "index", "copy", "isdisjoint", "issubset", "union", "intersection", "difference")):
+                    return False, f"`{unparse(n)[:50]}` may have an order-dependent effect (not a known read-only call)"
             if isinstance(n, ast.Call) and isinstance(n.func, ast.Name) and n.func.id == "print":
                 return False, "prints in iteration order"
             if isinstance(n, ast.Assign):
